@@ -43,7 +43,7 @@ LAYER = {1: "text: the readable text of the paragraph is not what the property r
          2: "markup: the element was not inserted/removed where the model (offset/regex arithmetic) says",
          3: "error behaviour: raises where the model does not (or the reverse), or raised after modifying the paragraph",
          4: "strip: removing tags changed the characters (double space collapsed)",
-         5: "text: insertion with a negative offset changed the text",
+         5: "text: the insertion changed the readable text (and the model of the pinned arithmetic predicts exactly this change)",
          6: "composite: content=/position=(a,b) call differs from its two documented single insertions"}
 DATE = datetime(2020, 1, 2, 3, 4, 5)
 
@@ -352,8 +352,6 @@ def classify(code, meta):
     st = meta['st']
     if code == 4 and squeeze(tl.raw(meta['pre'])) == squeeze(tl.raw(meta['post'])):
         return "strip_tags/double-space-created-by-concatenation"
-    if code == 5 and st['k'] in ('span_off', 'link_off') and st['off'] < 0:
-        return "set_span-set_link/negative-offset"
     return None
 
 
